@@ -34,6 +34,6 @@ SPEC = dict(
 )
 
 MANIFEST = dict(
-    text="Bounded model checking of the parsing kernels where attacker-controlled integers and bytes meet arithmetic: apply_predictor / apply_png_predictor_advanced with EVERY u32 predictor and /Columns,/Colors,/BitsPerComponent each any i64 or absent; ASCII85 on every five-digit group (incl. > 2^32-1); ASCIIHex / RunLength on every 3-byte input with any limit; LzwBitReader::read_bits for every n and reader state; (thorough) LZWDecode on every 3-byte input with any /EarlyChange; xref-stream read_field on fields of 0..=12 bytes and XRefStream::to_xref_entries with arbitrary /W, /Index and data; the content tokenizer's name scanner on '/' + up to 3 arbitrary bytes; the recursion-depth guard and circular-reference stack of parser/stack_safe.rs by one step from every valid state (depth never exceeds max_depth under any clock reading, cycles refused). The assertion is absence of every panic class Kani checks (arithmetic overflow as in debug builds, out-of-bounds, unwrap, unreachable) plus loop termination within the stated unwinding bound.",
+    text="Bounded model checking of the parsing kernels where attacker-controlled integers and bytes meet arithmetic: apply_predictor / apply_png_predictor_advanced with EVERY u32 predictor and /Columns,/Colors,/BitsPerComponent each any i64 or absent; ASCII85 on every five-digit group (incl. > 2^32-1); ASCIIHex / RunLength on every 3-byte input with any limit; LzwBitReader::read_bits for every n and reader state; xref-stream read_field on fields of 0..=12 bytes and XRefStream::to_xref_entries with arbitrary /W, /Index and data; the content tokenizer's name scanner on '/' + up to 3 arbitrary bytes; the recursion-depth guard and circular-reference stack of parser/stack_safe.rs by one step from every valid state (depth never exceeds max_depth under any clock reading, cycles refused). The assertion is absence of every panic class Kani checks (arithmetic overflow as in debug builds, out-of-bounds, unwrap, unreachable) plus loop termination within the stated unwinding bound.",
     note="Kernel-level claim only: whole-file opening/navigation (PdfReader, recovery, page tree, extraction) is outside. Trusted: Kani/CBMC, dictionary model + symbolic parameter source, head-room Vec models, fmt stub.",
 )
